@@ -9,6 +9,7 @@ var propDefs = map[string]*PropDef{
 			"a panic-free, terminating execution of every function implies the same for whole compilations/executions by induction over the call tree",
 		},
 		Assume: []string{
+			"recursion through the loaders (a file that includes, extends, imports or ssi-parses itself; a lazy self-include) is a call-graph obligation (reentry), decided statically, that fails at five call sites: recorded findings (the process dies of stack overflow); reflect.Value.Call needs a non-nil function (proved), FieldByIndex/FieldByName need a path without nil embedded pointers (an uninterpreted precondition: the package must not use them on context values)",
 			"nil dereferences are an obligation class only for pointers that may be nil by origin (results of package functions with a `return nil`, map lookups, failed comma-ok assertions, nil constants); pointers of any other origin (parameters, fields and elements loaded from the heap, results of library calls) are assumed non-nil where they are dereferenced",
 			"stack depth and memory exhaustion for input-proportional recursion and allocation are not modelled",
 			"reflect, strings, strconv, regexp, fmt, sort behave as their (assumed) contracts say; panics inside user callbacks are external",
@@ -70,7 +71,7 @@ var propDefs = map[string]*PropDef{
 			"the reference definitions are the spec functions (pyLo/pyHi ...) and postconditions in the contract file, written from the property statement; that those are the Django/Python semantics is by inspection",
 			"string-shaping filters that delegate to the library (upper/lower/title/cut/join/split/linebreaksbr/date/stringformat/urlize/linebreaks/truncate*_html) are covered only by the safety sweep, not by functional contracts",
 		},
-		Assume: []string{
+		Assume: []string{"strings.ContainsRune on the constant set of whitespace characters holds for exactly those four characters (axiom over runein, as in the engine's model of constant sets); a one-character string is determined by its character; the further bytes of a multi-byte rune are continuation bytes (utf8.DecodeRuneInString)", 
 			"Value accessors are functions of the wrapped reflect.Value (clauses labelled assume-): RVIntegerOf, RVStringOf, RVFloatOf, RVLenOf, RVIsTrueOf are uninterpreted",
 			"strings.Repeat/Fields/Split/TrimSpace behave as documented",
 		},
@@ -96,7 +97,7 @@ var propDefs = map[string]*PropDef{
 		Unmech: []string{
 			"'gone after the construct, outer bindings intact' follows from: the construct writes only the child's fresh map (proved at every map update), the body runs in the child (proved at the call), and the child map is a copy (proved) - composition over nesting depth on paper",
 		},
-		Assume: []string{"map iteration is modelled with a ghost set of delivered keys (every key delivered exactly once)"},
+		Assume: []string{"reIdentifiers is ^[a-zA-Z0-9_]+$ (written by package initialisation only, a writers rule): what it matches is an identifier (spec function) and an identifier is not empty (axiom); the sort package is modelled as rearranging exactly the slice it is given", "map iteration is modelled with a ghost set of delivered keys (every key delivered exactly once)"},
 	},
 	"C06": {
 		ID: "C06", Funcs: "all", Floor: 15,
@@ -140,7 +141,8 @@ var propDefs = map[string]*PropDef{
 			"'nothing else is read' for whole executions follows from the effect obligations (no file-system primitive is called outside TemplateLoader methods) by induction over the call graph",
 			"equal renderings of static and lazy include for rooted names follow from both computing FromFile(resolveFilename(T, name)) (proved at the call sites) and the loader's Abs ignoring T for rooted names (loader's contract)",
 		},
-		Assume: []string{"loaders are deterministic: Abs and the success of Get are uninterpreted functions of (loader, arguments); what a loader does with '..' is the loader's business", "path algebra (filepath.Join/Dir/IsAbs) is uninterpreted"},
+		Assume: []string{
+			"strconv.Atoi(s) and ParseInt(s, 10, n) return the number the decimal digits of s spell (spec function DecimalInt), ParseFloat(s, 64) likewise; nothing is assumed for other bases","loaders are deterministic: Abs and the success of Get are uninterpreted functions of (loader, arguments); what a loader does with '..' is the loader's business", "path algebra (filepath.Join/Dir/IsAbs) is uninterpreted"},
 	},
 	"C13": {
 		ID: "C13", Kinds: []string{"preserved"}, Funcs: "all", Floor: 20,
@@ -155,7 +157,7 @@ var propDefs = map[string]*PropDef{
 		Unmech: []string{
 			"'same bytes, same failures' follows from: the four entry points call the same execute with the same template and context (proved at the call sites), execution never inspects its writer (proved: no type assertion on a writer in execution code), and execution is a function of template and context (C04); the unbuffered output on failure is then a prefix of the successful one",
 		},
-		Assume: []string{"bytes.Buffer.WriteTo delivers the buffer with one Write call and returns that call's error"},
+		Assume: []string{"errors of writes to the output writer and to in-memory buffers may be dropped (ignorable-errors): bytes.Buffer and strings.Builder never fail, and for a failing output writer the property promises something only for ExecuteWriter, which returns the error of the final WriteTo; an error value that comes from outside the package (loader, writer, application function, reflect) does not hold a nil *Error", "bytes.Buffer.WriteTo delivers the buffer with one Write call and returns that call's error"},
 	},
 	"C04": {
 		ID: "C04", Kinds: []string{"frame"}, Funcs: "exec", Floor: 100,
